@@ -21,16 +21,17 @@ import (
 )
 
 type Case struct {
-	Op    string     `json:"op"` // parse | build | points | payload
-	Tag   string     `json:"tag,omitempty"`
-	V     uint8      `json:"v,omitempty"`
-	Data  string     `json:"data,omitempty"` // hex
-	Kind  string     `json:"kind,omitempty"` // builder
-	Seed  uint64     `json:"seed,omitempty"`
-	N     int        `json:"n,omitempty"`     // list length (transactions, commitments, points, wants)
-	Bad   int        `json:"bad,omitempty"`   // 1+index of the point replaced by an invalid one (0 = none)
-	Inner *InnerCase `json:"inner,omitempty"` // op inner: byte-level inner encoding at a limit
-	Cut   int        `json:"cut,omitempty"`   // build, then keep only the first Cut-1 bytes (0 = whole); negative: append -Cut bytes
+	Op      string     `json:"op"` // parse | build | points | payload
+	Tag     string     `json:"tag,omitempty"`
+	V       uint8      `json:"v,omitempty"`
+	Data    string     `json:"data,omitempty"` // hex
+	Kind    string     `json:"kind,omitempty"` // builder
+	Seed    uint64     `json:"seed,omitempty"`
+	N       int        `json:"n,omitempty"`       // list length (transactions, commitments, points, wants)
+	Bad     int        `json:"bad,omitempty"`     // 1+index of the point replaced by an invalid one (0 = none)
+	Inner   *InnerCase `json:"inner,omitempty"`   // op inner: byte-level inner encoding at a limit
+	Special string     `json:"special,omitempty"` // with Bad: the named point of points.go (valid or invalid by construction) goes there
+	Cut     int        `json:"cut,omitempty"`     // build, then keep only the first Cut-1 bytes (0 = whole); negative: append -Cut bytes
 }
 
 // ---- Coq printers -------------------------------------------------------------
@@ -147,7 +148,7 @@ func (t *tables) key(data []byte, off int) {
 	}
 	var k crypto.Key
 	copy(k[:], data[off:])
-	t.keys = append(t.keys, fmt.Sprintf("(%d%%Z, %s)", off, vh.Bool(k.CheckKey())))
+	t.keys = append(t.keys, fmt.Sprintf("(%d%%Z, %s)", off, vh.Bool(keyStatus(k))))
 }
 
 func (t *tables) snap(data []byte, off, n int) {
@@ -298,23 +299,46 @@ var keyPool []crypto.Key // valid points, deterministic
 
 func validKey(i int) crypto.Key {
 	for len(keyPool) <= i {
-		seed := make([]byte, 64)
-		binary.BigEndian.PutUint64(seed, uint64(len(keyPool))+1)
-		copy(seed[8:], "c08 point pool")
-		k := crypto.NewKeyFromSeed(seed)
-		keyPool = append(keyPool, k.Public())
+		keyPool = append(keyPool, constructedKey(len(keyPool)))
 	}
 	return keyPool[i]
 }
 
-func invalidKey(r *vh.Rand) crypto.Key {
-	for {
-		var k crypto.Key
-		copy(k[:], r.Bytes(32))
-		if !k.CheckKey() {
-			return k
+// placedKey is the point put at position cs.Bad: the named special, else some invalid point.
+func placedKey(cs Case, r *vh.Rand) crypto.Key {
+	if cs.Special != "" {
+		sp := specialByName[cs.Special]
+		if sp == nil {
+			panic("unknown special point " + cs.Special)
+		}
+		return sp.Key
+	}
+	return invalidKey(r)
+}
+
+func placedValid(cs Case) bool { return cs.Special != "" && specialByName[cs.Special].Valid }
+
+func placedName(cs Case) string {
+	if cs.Special != "" {
+		return cs.Special
+	}
+	return "one of the invalid points"
+}
+
+// specialClass strips the running number: small-order, mixed-order, non-canonical-y, off-curve, valid
+func specialClass(name string) string {
+	for i, ch := range name {
+		if ch >= '0' && ch <= '9' {
+			return strings.TrimSuffix(name[:i], "-")
 		}
 	}
+	return name
+}
+
+// invalidKey: an invalid point, by construction (points.go)
+func invalidKey(r *vh.Rand) crypto.Key {
+	inv := invalidSpecials()
+	return inv[r.Intn(len(inv))].Key
 }
 
 func hash(r *vh.Rand) (h crypto.Hash) {
@@ -429,7 +453,9 @@ func sameSnapshot(a, b *common.Snapshot, ignoreSig bool) bool {
 func runBuild(c *vh.Ctx, cs Case) {
 	r := vh.NewRand(cs.Seed, "c08/"+cs.Kind)
 	kind := "build:" + cs.Kind
-	if cs.Bad > 0 {
+	if cs.Special != "" {
+		kind += ":point:" + specialClass(cs.Special)
+	} else if cs.Bad > 0 {
 		kind += ":badpoint"
 	}
 	if cs.Cut != 0 {
@@ -441,7 +467,7 @@ func runBuild(c *vh.Ctx, cs Case) {
 	h.key = crypto.NewKeyFromSeed(seed)
 	point := func(i int) crypto.Key { // the i-th point of the message (1-based for Bad)
 		if cs.Bad == i+1 {
-			return invalidKey(r)
+			return placedKey(cs, r)
 		}
 		return validKey(r.Intn(256))
 	}
@@ -626,7 +652,7 @@ func runBuild(c *vh.Ctx, cs Case) {
 		for i := range ks {
 			k := validKey(r.Intn(1100))
 			if cs.Bad == i+1 {
-				k = invalidKey(r)
+				k = placedKey(cs, r)
 			}
 			ks[i] = &k
 			kb[i] = k[:]
@@ -731,7 +757,7 @@ func runBuild(c *vh.Ctx, cs Case) {
 	case "commitments":
 		wantPanic = cs.N > 1024
 	}
-	key := fmt.Sprintf("%s|%d|%d|%d|%d", kind, cs.Seed, cs.N, cs.Bad, cs.Cut)
+	key := fmt.Sprintf("%s|%d|%d|%d|%d|%s", kind, cs.Seed, cs.N, cs.Bad, cs.Cut, cs.Special)
 	if pan {
 		bterm := ""
 		if term != "" {
@@ -768,6 +794,9 @@ func runBuild(c *vh.Ctx, cs Case) {
 		cut = cs.Cut
 	}
 	bterm := vh.App("CBuildParse", term, obs, vh.ZI(int64(cut)), vh.Bytes(extra), vh.NU(uint64(version)), tk, ts, tt, pobs)
+	if cs.Special != "" && len(bterm) <= 16<<10 {
+		modelTick = modelEvery - 1 // constructed points always reach the model
+	}
 	c.Case(kind, key, !ppan && err == nil, cs, modelTerm(c, bterm))
 	parseOracle(c, cs, data, m, err, ppan, ppv)
 	if ppan {
@@ -776,9 +805,9 @@ func runBuild(c *vh.Ctx, cs Case) {
 	if cs.Cut != 0 {
 		return // only totality (and the model) is checked on truncated / extended messages
 	}
-	if cs.Bad > 0 && cs.Bad <= hasPoint {
+	if cs.Bad > 0 && cs.Bad <= hasPoint && !placedValid(cs) {
 		if err == nil {
-			c.Fail("invalid-point-accepted", fmt.Sprintf("%s message whose point #%d is not on the curve was accepted", cs.Kind, cs.Bad), cs)
+			c.Fail("invalid-point-accepted", fmt.Sprintf("%s message whose point #%d is invalid by construction (%s) was accepted", cs.Kind, cs.Bad, placedName(cs)), cs)
 		}
 		return
 	}
@@ -1226,12 +1255,31 @@ func corpus() []Case {
 	for _, k := range builderKinds {
 		cs = append(cs, Case{Op: "build", Kind: k, Seed: 100, N: 2})
 	}
+	// every constructed point in every point slot of every message type that validates points
+	for i, sp := range specials {
+		seed := uint64(1000 + i)
+		cs = append(cs,
+			Case{Op: "build", Kind: "announcement", Seed: seed, Bad: 1, Special: sp.Name},
+			Case{Op: "build", Kind: "commitment", Seed: seed, N: i % 3, Bad: 1, Special: sp.Name},
+			Case{Op: "build", Kind: "fullchallenge", Seed: seed, N: 1, Bad: 1, Special: sp.Name},
+			Case{Op: "build", Kind: "fullchallenge", Seed: seed, N: 1, Bad: 2, Special: sp.Name},
+			Case{Op: "build", Kind: "commitments", Seed: seed, N: 5, Bad: 1, Special: sp.Name},
+			Case{Op: "build", Kind: "commitments", Seed: seed, N: 5, Bad: 3, Special: sp.Name},
+			Case{Op: "build", Kind: "commitments", Seed: seed, N: 5, Bad: 5, Special: sp.Name},
+			Case{Op: "build", Kind: "commitments", Seed: seed, N: 1, Bad: 1, Special: sp.Name},
+		)
+		if i%8 == 0 {
+			cs = append(cs, Case{Op: "build", Kind: "commitments", Seed: seed, N: 512, Bad: 1 + (i*37)%512, Special: sp.Name},
+				Case{Op: "build", Kind: "commitments", Seed: seed, N: 1024, Bad: 1024, Special: sp.Name})
+		}
+	}
 	return cs
 }
 
 func main() {
 	c := vh.Start("C08")
-	c.Rep.Rule = "corpus of builder limits (0/255/256 transactions, 0/1/1024/1025 commitments, invalid point at each position); " +
+	c.Rep.Rule = "points valid / invalid BY CONSTRUCTION (s*B; the 8 small-order points in every parsed encoding, s*B+T for each torsion point T, y>=p, off-curve y; built with filippo.io/edwards25519, not the repository) in every point slot: announcement, commitment, full challenge commitment and challenge, pre-commitments first/middle/last; " +
+		"corpus of builder limits (0/255/256 transactions, 0/1/1024/1025 commitments, invalid point at each position); " +
 		"inner transaction / snapshot encodings assembled at byte level with complete members and counts at limit-1, limit, limit+1 and the next constant " +
 		"(inputs, outputs, keys, references, signature maps, signatures, signers, extra, amount, input index; snapshot transactions / references), inside every carrying message type; " +
 		"directed messages of exactly every parser length guard and one byte either side (built by the real builders, then cut or " +
